@@ -276,7 +276,7 @@ def r3_isolation(ctx, chk, rec_t, rule="C12.3"):
     Lo, Li = s.Lo, s.Li
     allowed = {s.res_var}
     bad = []
-    for t in C02._sub(rec_t):
+    for t in C02._sub(_lazy_norm(s, rec_t)):
         if t[0] == "acc" and t[1] in (Li.id, Lo.id) and t[2] not in allowed:
             # prev_game_had_solution legitimately carries from the pruned to the unpruned mode
             if t[2] == _flag_var(s):
@@ -459,6 +459,19 @@ def _batch_runner(ctx, chk, rule):
     chk.undecided(rule, f.where(), "no solve() call reachable from run_games inside conditionalrewards.py")
 
 
+def _lazy_norm(s, t):
+    """`if obj is None: obj = make(game)` inside the mode loop, with `obj = None` set for every game: after that statement obj is
+    make(game) - built in this iteration or in an earlier mode of the SAME game, never taken from another game."""
+    Li = s.Li
+
+    def g(x):
+        if x[0] == "ite" and x[1][0] == "cmp" and x[1][1] in ("is", "==") and x[1][3] == C(None) and x[1][2][0] == "acc" and x[1][2][1] == Li.id \
+                and x[3] == x[1][2] and Li.init.get(x[1][2][2]) == C(None) and not mentions(x[2], lambda y: y == x[1][2]):
+            return x[2]
+        return None
+    return subst(t, g)
+
+
 def _from_nested(t, Li):
     """The value comes out of a loop nested in the mode loop (runs repeated for timing, retries): not resolved here."""
     return mentions(t, lambda x: x[0] == "res" or (x[0] == "acc" and x[1] != Li.id))
@@ -529,6 +542,8 @@ def r5_record(ctx, chk, rec_t, rule="C12.5"):
             return is_const(t) and t[1] == want_d and type(t[1]) is type(want_d)
         if is_default(vB) and is_default(vC):
             chk.ok(rule, f.where(Li.node), "record[%r] = solve()[%d] if solved else %r" % (key, slot, want_d))
+        elif not all(is_const(x) or _solve_calls(x) for x in (vB, vC)):
+            chk.undecided(rule, f.where(Li.node), "record[%r] is `%s` when the solve raised and `%s` when the pruned run had failed: not resolved to a constant" % (key, show(vB)[:60], show(vC)[:60]))
         else:
             chk.violation(rule, f.where(Li.node), "record[%r] is `%s` when the solve raised and `%s` when the pruned run had failed; specification: %r in both cases" % (
                 key, show(vB)[:60], show(vC)[:60], want_d), expected=repr(want_d), found="%s / %s" % (show(vB)[:60], show(vC)[:60]), construct="run_games record %s default" % key)
@@ -537,6 +552,10 @@ def r5_record(ctx, chk, rec_t, rule="C12.5"):
     go = game_obj[0] if game_obj else None
     ns = rec.get("n_states")
     nt = rec.get("n_transitions")
+    if ns is not None and nt is not None and _lazy_norm(s, ns) != ns:
+        ns, nt = _lazy_norm(s, ns), _lazy_norm(s, nt)
+        game_obj = [t for t in C02._sub(_lazy_norm(s, rec_t)) if t[0] == "call" and t[1] == "StochasticGame"]
+        go = game_obj[0] if game_obj else None
     if go is not None and ns == ("attr", go, "num_states"):
         chk.ok(rule, f.where(Li.node), "record['n_states'] = num_states of this iteration's game object")
     elif ns is not None and (_unresolved_container(ns) or _from_nested(ns, Li)):
